@@ -92,7 +92,7 @@ func (r *recorder) hook(ev sniproxy.VerifEvent) {
 	}
 	r.mu.Lock()
 	defer r.mu.Unlock()
-	nm := strings.TrimPrefix(ev.Name, "ep")
+	nm := strings.TrimPrefix(ev.Name, epPrefix)
 	switch ev.Point {
 	case "server.kick":
 		r.pendKick = fmt.Sprint(r.epOfPtr[ev.Ptr])
@@ -144,8 +144,8 @@ func (r *recorder) specLookup(nm string) string {
 func (r *recorder) onConnect(name string) int64 {
 	r.mu.Lock()
 	id, ok := r.epOfGo[goid()]
+	s := r.nextSess // the first session value is 0: a session value like any other
 	r.nextSess++
-	s := r.nextSess
 	if ok {
 		r.add(fmt.Sprintf("connect ep=%d sess=%d", id, s), "ok")
 		r.conn[s]++
@@ -199,6 +199,9 @@ func (t *trackDialer) dial(ctx context.Context, network, addr string) (net.Conn,
 // "kickwhileconnecting name=<n>" parks the first lifecycle of the name inside OnConnect until the second has mapped.
 type scenario struct{ lines []string }
 
+// endpoint names carry upper-case letters and punctuation: the registry's keys are the names as given
+const epPrefix = "Site-Ep."
+
 func gen(r *hx.Rand, big bool) scenario {
 	var ls []string
 	if r.Intn(4) == 0 {
@@ -251,7 +254,7 @@ func run(sc scenario, seed uint64, rep *hx.Report) (lines, expect []string, skip
 	defer sniproxy.VerifSetHook(nil)
 	srv := sniproxy.NewServer(&sniproxy.ServerConfig{OnConnect: rec.onConnect, OnDisconnect: rec.onDisconnect,
 		Lookup: func(domain string) (*sniproxy.Dest, error) {
-			return &sniproxy.Dest{Name: "ep" + strings.TrimSuffix(domain, ".test")}, nil
+			return &sniproxy.Dest{Name: epPrefix + strings.TrimSuffix(domain, ".test")}, nil
 		}})
 	frontLis, err := net.Listen("tcp", "127.0.0.1:0")
 	if err != nil {
@@ -269,7 +272,7 @@ func run(sc scenario, seed uint64, rep *hx.Report) (lines, expect []string, skip
 	ts := httptest.NewServer(aries.Func(func(c *aries.C) error {
 		// the endpoint name is given explicitly and differs from the authenticated user
 		c.User = "user-" + strings.TrimPrefix(c.Path, "/")
-		return srv.ServeBackName(c, "ep"+strings.TrimPrefix(c.Path, "/"))
+		return srv.ServeBackName(c, epPrefix+strings.TrimPrefix(c.Path, "/"))
 	}))
 	defer ts.Close()
 	ctx := context.Background()
@@ -285,16 +288,16 @@ func run(sc scenario, seed uint64, rep *hx.Report) (lines, expect []string, skip
 		ws := strings.Fields(l)
 		switch ws[0] {
 		case "kickwhileconnecting":
-			kickName = "ep" + kvs(ws, "name")
+			kickName = epPrefix + kvs(ws, "name")
 			rec.mu.Lock()
 			rec.parks["connect:"+kickName] = make(chan struct{})
 			rec.mu.Unlock()
 		case "holdkick":
 			rec.mu.Lock()
-			rec.parks["kick:ep"+kvs(ws, "name")] = make(chan struct{})
+			rec.parks["kick:"+epPrefix+kvs(ws, "name")] = make(chan struct{})
 			rec.mu.Unlock()
 		case "holdunmap":
-			holdName = "ep" + kvs(ws, "name")
+			holdName = epPrefix + kvs(ws, "name")
 			rec.mu.Lock()
 			rec.parks["unmap-enter:"+holdName] = make(chan struct{})
 			rec.mu.Unlock()
@@ -305,7 +308,7 @@ func run(sc scenario, seed uint64, rep *hx.Report) (lines, expect []string, skip
 				io.Copy(io.Discard, c)
 				c.Close()
 			}
-			if _, ok := lookupPtr("ep0"); !ok {
+			if _, ok := lookupPtr(epPrefix + "0"); !ok {
 				rep.Fail("registry-lock-held", "after a front connection looked a name up, a look-up of ep0 did not return within 10 s", sc.lines)
 				return nil, nil, "registry lock held"
 			}
@@ -351,7 +354,7 @@ func run(sc scenario, seed uint64, rep *hx.Report) (lines, expect []string, skip
 			}
 			lives = append(lives, life{ep, td, kvs(ws, "end")})
 			// a second lifecycle under the parked name releases the first one's OnConnect once it has mapped
-			if kickName == "ep"+kvs(ws, "name") {
+			if kickName == epPrefix+kvs(ws, "name") {
 				rec.mu.Lock()
 				n := 0
 				for _, x := range rec.lines {
@@ -461,7 +464,7 @@ func run(sc scenario, seed uint64, rep *hx.Report) (lines, expect []string, skip
 	}
 	stable()
 	for _, nm := range []string{"0", "1"} {
-		ptr, ok := lookupPtr("ep" + nm) // (registry lock before recorder lock, as in the hooks)
+		ptr, ok := lookupPtr(epPrefix + nm) // (registry lock before recorder lock, as in the hooks)
 		if !ok {
 			rep.Fail("registry-lock-held", "a look-up of ep"+nm+" did not return within 10 s", sc.lines)
 			return nil, nil, "registry lock held"
@@ -488,7 +491,7 @@ func run(sc scenario, seed uint64, rep *hx.Report) (lines, expect []string, skip
 	stable()
 	endPtr := map[string]uintptr{}
 	for _, nm := range []string{"0", "1"} {
-		p, ok := lookupPtr("ep" + nm)
+		p, ok := lookupPtr(epPrefix + nm)
 		if !ok {
 			rep.Fail("registry-lock-held", "a look-up of ep"+nm+" did not return within 10 s", sc.lines)
 			return nil, nil, "registry lock held"
